@@ -138,6 +138,12 @@ impl Group for Secp256K1Group {
     }
 
     fn deserialize(buf: &Self::Serialization) -> Result<Self::Element, GroupError> {
+        // Only the compressed encoding (tag 0x02 or 0x03) is canonical. Other SEC1 tags
+        // with a 33-byte body (the "compact" tag 0x05) would decode to a valid point
+        // that re-encodes differently.
+        if buf[0] != 0x02 && buf[0] != 0x03 {
+            return Err(GroupError::MalformedElement);
+        }
         let encoded_point =
             k256::Sec1Point::from_bytes(buf).map_err(|_| GroupError::MalformedElement)?;
 
